@@ -375,7 +375,8 @@ class Run:
             # every connection's hop-by-hop generator draws the same random start value (an outcome the real
             # generator can produce): identifiers are unique per connection only
             from vf.checks.c16 import ScriptedRandom
-            helpers.random = ScriptedRandom(real_random, lambda a, b: 0x00777000 if (a, b) == (1, 0xffffffff) else None)
+            start = cfg.get("hbh_start", 0x00777000)
+            helpers.random = ScriptedRandom(real_random, lambda a, b: start if (a, b) == (1, 0xffffffff) else None)
             self.cov["aligned_hbh_cases"] = self.cov.get("aligned_hbh_cases", 0) + 1
         try:
             c = Case(self, cfg, callers, seed)
@@ -422,8 +423,10 @@ def run_shard(spec):
     rng = random.Random(h64("C10", spec["seed"], spec["name"]))
     for i in range(spec["n"]):
         cfg = make_config(rng)
-        if rng.random() < 0.2:
+        if rng.random() < 0.25:
             cfg["aligned_hbh"] = True
+            # ... and sometimes a start value just below the 32-bit wrap: the identifiers cross it
+            cfg["hbh_start"] = rng.choice([0x00777000, 0x00777000, 0xfffffffc, 0xfffffffe, 0xffffffff])
         ncall = rng.randrange(1, 5)
         callers = []
         for _ in range(ncall):
